@@ -194,14 +194,28 @@ class DebugInfo:
                                 end_offset)
             else:
                 # there should have been an empty block marker inside.
+                marked = False
                 for addr in self.empty_blocks:
                     if start_offset <= addr < end_offset:
+                        marked = True
                         add_node_record(block.start_stmt,
                                         start_offset,
                                         addr)
                         add_node_record(block.end_stmt,
                                         addr,
                                         end_offset)
+
+                if not marked and end_offset > start_offset:
+                    # the body produced no code at all (it consists of
+                    # code-less statements only, or the optimiser
+                    # removed it): whatever code the block has belongs
+                    # to its start statement
+                    add_node_record(block.start_stmt,
+                                    start_offset,
+                                    end_offset)
+                    add_node_record(block.end_stmt,
+                                    end_offset,
+                                    end_offset)
 
         self.stmts.sort(key=lambda r: r.start_offset)
 
